@@ -406,8 +406,8 @@ def frame_stats_spec(result, df):
                 out.update(bad)
                 return out
             if out["keyed_by_the_column_label"]:
-                out.update(component_stats_spec(rec, df.col(key), with_name=False))
-    out.update(index_stats_spec(result["index"], df.index))
+                out.update({"column." + k: v for k, v in component_stats_spec(rec, df.col(key), with_name=False).items()})
+    out.update({"index." + k: v for k, v in index_stats_spec(result["index"], df.index).items()})
     return out
 
 
@@ -453,7 +453,382 @@ class InferDataFrameStatistics(Contract):
         else:
             cols = CompDict("column_statistics", ncols, lambda i: df.columns.at(i), lambda i: component_stats_value(df.col(df.columns.at(i)), with_name=False))
         idx = InferIndexStatistics().apply(I, [df.index], {})
-        return DictObj({"columns": cols, "index": idx})
+        r = DictObj({"columns": cols, "index": idx})
+        p.ghost["frame_stats"] = r
+        return r
 
 
-CONTRACTS = [GetArrayType, GetArrayCheckStatistics, InferSeriesStatistics, InferIndexStatistics, InferDataFrameStatistics]
+
+# --------------------------------------------------------------------------------------
+# parse_check_statistics: statistics -> Check constructor calls
+# --------------------------------------------------------------------------------------
+
+
+class Made(Obj):
+    """the value returned by a constructor that is kept abstract (Check.<name>, Column, Index, ...): remembers which
+    call made it"""
+
+
+def ctor(name, raises=False):
+    """an abstract constructor: records every call; the k-th call returns a fresh object `made[k]`"""
+
+    def mk(nm):
+        cb = SymCallable(name, None, raises)
+        made = []
+
+        def result(n2):
+            o = Made(None, f"{name}()#{len(made)}", pre=False)
+            o.made_by = (cb, len(cb.calls) - 1)
+            made.append(o)
+            return o
+
+        cb.result = T.Lazy(result)
+        cb.made = made
+        cur().ghost.setdefault("ctors", {})[name] = cb
+        return cb
+
+    return T.Lazy(mk)
+
+
+def ctor_call(o):
+    """(constructor name, args, kwargs) of the call that made `o`"""
+    if not isinstance(o, Made):
+        return None
+    cb, k = o.made_by
+    a, kw = cb.calls[k]
+    return cb.name, a, kw
+
+
+class ParsedChecks:
+    """result of parse_check_statistics where its contract is applied: the checks denoted by `source`"""
+
+    __pyvc_symbolic__ = True
+
+    def __init__(self, source):
+        self.source = source
+
+
+OPTIONS = {"ignore_na": False, "raise_warning": True}
+
+
+class ParseCheckStatistics(Contract):
+    """one check per statistic, in order, made by the constructor of that name with the statistic as its argument
+    (keyword arguments when the statistic is a mapping of argument names, minus its `options`, which are set as
+    attributes of the check); no statistics -> None.  Only an exception of a constructor escapes."""
+
+    target = f"{STATS}:parse_check_statistics"
+    params = dict(check_stats=None)
+    raises = (TypeError, OtherException)
+    callback_raises = [TypeError, OtherException]
+    sym_globals = {f"{STATS}:Check": T.Ref(None, strict=True, **{n: ctor(n, raises=True) for n in (GE, LE, ISIN)})}
+    CASES = ["none", "empty", "bounds", "isin", "keyword-form", "keyword-form+options", "options-only"]
+    check_frame = False
+
+    def setup(self, I):
+        PI.install(I)
+
+    def make_args(self):
+        case = T.OneOf(*self.CASES).fresh("shape(check_stats)")
+        cur().ghost["case"] = case
+        v = lambda n: T.fresh_value(T.Any, n)
+        stats = {"none": None, "empty": DictObj(),
+                 "bounds": DictObj({GE: core.sym_real("lo"), LE: core.sym_real("hi")}),
+                 "isin": DictObj({ISIN: PI.CatValues(lambda x: core.sym_bool("mem"), "categories")}),
+                 "keyword-form": DictObj({GE: DictObj({"min_value": v("lo")}), LE: DictObj({"max_value": v("hi")})}),
+                 "keyword-form+options": DictObj({LE: DictObj({"max_value": v("hi"), "options": DictObj(OPTIONS)})}),
+                 "options-only": DictObj({GE: DictObj({"options": DictObj(OPTIONS)})})}[case]
+        # what the caller passed, before the function may have changed it
+        cur().ghost["given"] = None if stats is None else [(k, dict(x) if isinstance(x, dict) else x) for k, x in stats.items()]
+        return {"check_stats": stats}
+
+    def _successful_calls(self):
+        """constructor calls that returned, in program order: (name, args, kwargs, made object)"""
+        ev = cur().events
+        out = []
+        counters = {}
+        raised = {(e[1], e[2]) for e in ev if e[0] == "callback_raised"}
+        ctors = cur().ghost.get("ctors", {})
+        for e in ev:
+            if e[0] != "callback":
+                continue
+            name, idx = e[1], e[2]
+            if (name, idx) in raised:
+                continue
+            cb = ctors[name]
+            k = counters.get(name, 0)
+            counters[name] = k + 1
+            out.append((name, cb.calls[idx][0], cb.calls[idx][1], cb.made[k]))
+        return out
+
+    def ensures(self, result, old, check_stats):
+        given = cur().ghost["given"]
+        calls = self._successful_calls()
+        if not given:
+            return {"no_statistics_no_checks": result is None and calls == []}
+        out = {"one_check_per_statistic_in_order": isinstance(result, list) and len(result) == len(given) and len(calls) == len(given)
+               and all(r is c[3] for r, c in zip(result, calls))}
+        if not out["one_check_per_statistic_in_order"]:
+            return out
+        for k, ((name, stat), (cname, a, kw, made)) in enumerate(zip(given, calls)):
+            out[f"check_{k}_made_by_the_constructor_of_that_name"] = cname == name
+            if isinstance(stat, dict):
+                kwargs = {x: y for x, y in stat.items() if x != "options"}
+                keyword_call = a == () and set(kw) == set(kwargs) and all(kw[x] is kwargs[x] for x in kwargs)
+                # documented fallback: a constructor that does not take the mapping as keywords gets it as its argument
+                unary_fallback = len(a) == 1 and kw == {} and isinstance(a[0], dict) and any(e[0] == "callback_raised" and e[3] == "TypeError" for e in cur().events)
+                out[f"check_{k}_gets_the_statistic_as_keywords"] = keyword_call or unary_fallback
+                if keyword_call:
+                    opts = stat.get("options", {})
+                    out[f"check_{k}_options_are_applied"] = all(made.attrs.get(o) is v or made.attrs.get(o) == v for o, v in opts.items()) and \
+                        set(made.attrs) - {"args"} == set(opts)
+            else:
+                out[f"check_{k}_gets_the_statistic_as_its_argument"] = len(a) == 1 and a[0] is stat and kw == {}
+        return out
+
+    def on_raise(self, exc, old, check_stats):
+        return {"only_a_constructor_error_escapes": exc.attrs.get("__from_callback__") is not None}
+
+    def apply(self, I, args, kwargs):
+        (stats,) = args
+        r = None if stats is None else ParsedChecks(stats)
+        cur().ghost.setdefault("parse_calls", []).append((stats, r))
+        return r
+
+
+def parsed_from(value, stats):
+    """`value` is what parse_check_statistics gives for `stats` (by its contract)"""
+    if stats is None:
+        return value is None
+    return isinstance(value, ParsedChecks) and value.source is stats
+
+
+# --------------------------------------------------------------------------------------
+# schema construction: _create_index, infer_dataframe_schema, infer_series_schema, infer_schema
+# (the schema classes are abstract constructors: A-ctor - they accept these arguments and store them; what a schema
+#  built from them accepts is lemma AcceptsItsData below, on top of C01's check semantics)
+# --------------------------------------------------------------------------------------
+
+SCHEMA_GLOBALS = {f"{INFER}:{n}": ctor(n) for n in ("Column", "Index", "MultiIndex", "DataFrameSchema", "SeriesSchema")}
+
+
+def component_ctor_spec(made, cname, rec, with_name, prefix=""):
+    """`made` was built by constructor `cname` from statistics record `rec`: dtype positionally (or dtype=), checks =
+    parse_check_statistics(rec.checks), nullable = rec.nullable, [name = rec.name], nothing else"""
+    call = ctor_call(made)
+    if call is None or call[0] != cname:
+        return {prefix + "built_by_the_component_constructor": False}
+    _, a, kw = call
+    dtype = a[0] if len(a) == 1 else kw.get("dtype") if len(a) == 0 else None
+    want_kw = {"checks", "nullable"} | ({"name"} if with_name else set()) | ({"dtype"} if len(a) == 0 else set())
+    out = {prefix + "built_by_the_component_constructor": True,
+           prefix + "gets_exactly_the_documented_arguments": len(a) <= 1 and set(kw) - {"coerce"} == want_kw,
+           prefix + "dtype_is_the_inferred_dtype": dtype is rec["dtype"]}
+    if not out[prefix + "gets_exactly_the_documented_arguments"]:
+        return out
+    out[prefix + "checks_are_the_parsed_statistics"] = parsed_from(kw["checks"], rec["checks"])
+    out[prefix + "nullable_is_the_inferred_flag"] = kw["nullable"] is rec["nullable"]
+    if with_name:
+        out[prefix + "name_is_the_inferred_name"] = kw["name"] is rec["name"]
+    return out
+
+
+def opaque_record(name):
+    return DictObj({k: T.fresh_value(T.Opt(T.Any) if k == "checks" else T.Any, f"{name}.{k}") for k in ("dtype", "checks", "nullable", "name")})
+
+
+class CreatedIndex:
+    __pyvc_symbolic__ = True
+
+    def __init__(self, source):
+        self.source = source
+
+
+class CreateIndex(Contract):
+    target = f"{INFER}:_create_index"
+    params = dict(index_statistics=None)
+    sym_globals = SCHEMA_GLOBALS
+    use_contracts = ("ParseCheckStatistics",)
+
+    def setup(self, I):
+        PI.install(I)
+
+    def make_args(self):
+        k = cur().choose([("one-level", None), ("n-levels", None)], "shape(index_statistics)")
+        if k == 0:
+            return {"index_statistics": ListObj([opaque_record("level[0]")])}
+        n = core.sym_int("n_levels")
+        cur().assume(n >= 1)
+        core.register_model_var("n_levels", n.z)
+        return {"index_statistics": SymSeq("index_statistics", n, lambda i: opaque_record(f"level[{getattr(i, 'z', i)}]"))}
+
+    def ensures(self, result, old, index_statistics):
+        return created_index_spec(result, index_statistics)
+
+    def apply(self, I, args, kwargs):
+        (st,) = args
+        cur().check(st is not None, f"{I.target_qualname}/pre@{self.name()}.index_statistics_present")
+        return CreatedIndex(st)
+
+
+def created_index_spec(result, stats):
+    n = stats.slen() if isinstance(stats, SymSeq) else len(stats)
+    single = py_eq(n, 1)
+    if cur().decide(single, "exactly one level"):
+        rec = stats.at(0) if isinstance(stats, SymSeq) else stats[0]
+        return component_ctor_spec(result, "Index", rec, True, "single_level.")
+    call = ctor_call(result)
+    out = {"several_levels_give_a_multiindex": call is not None and call[0] == "MultiIndex"}
+    if not out["several_levels_give_a_multiindex"]:
+        return out
+    _, a, kw = call
+    levels = a[0] if len(a) == 1 and not kw else kw.get("indexes") if not a and set(kw) == {"indexes"} else None
+    out["multiindex_gets_the_levels_only"] = levels is not None
+    if levels is None:
+        return out
+    if isinstance(levels, SymSeq):
+        out["one_component_per_level"] = not levels.appended and bool(z3.is_true(z3.simplify(core.as_z3_bool(py_eq(levels.slen(), n)))))
+        k = core.sym_int("level")
+        core.register_model_var("level", k.z)
+        cur().assume(And(k >= 0, k < n))
+        comp, bad = force(lambda: levels.at(k), "level_component_is_built_without_error")
+        if bad:
+            out.update(bad)
+            return out
+        out.update(component_ctor_spec(comp, "Index", stats.at(k), True, "level."))
+    else:
+        out["one_component_per_level"] = isinstance(levels, list) and len(levels) == n
+        if out["one_component_per_level"]:
+            for k, comp in enumerate(levels):
+                out.update(component_ctor_spec(comp, "Index", stats[k], True, f"level{k}."))
+    return out
+
+
+class InferDataFrameSchema(Contract):
+    target = f"{INFER}:infer_dataframe_schema"
+    params = dict(df=None)
+    sym_globals = SCHEMA_GLOBALS
+    use_contracts = ("InferDataFrameStatistics", "ParseCheckStatistics", "CreateIndex")
+
+    def setup(self, I):
+        PI.install(I)
+
+    def make_args(self):
+        return {"df": fresh_frame()}
+
+    def ensures(self, result, old, df):
+        p = cur()
+        call = ctor_call(result)
+        ctors = p.ghost.get("ctors", {})
+        out = {"returns_the_one_dataframe_schema_it_builds": call is not None and call[0] == "DataFrameSchema" and len(ctors["DataFrameSchema"].calls) == 1}
+        if not out["returns_the_one_dataframe_schema_it_builds"]:
+            return out
+        _, a, kw = call
+        out["schema_gets_columns_index_and_coerce"] = a == () and set(kw) == {"columns", "index", "coerce"}
+        if not out["schema_gets_columns_index_and_coerce"]:
+            return out
+        stats = p.ghost["frame_stats"]
+        out["coerce_is_on"] = kw["coerce"] is True
+        out["index_is_created_from_the_index_statistics"] = isinstance(kw["index"], CreatedIndex) and kw["index"].source is stats["index"]
+        cols = kw["columns"]
+        ncols = df.columns.slen()
+        if isinstance(cols, SymDict):
+            out["one_column_schema_per_column"] = bool(z3.is_true(z3.simplify(core.as_z3_bool(py_eq(cols.keys_seq.slen(), ncols)))))
+            j = core.sym_int("col")
+            core.register_model_var("col", j.z)
+            p.assume(And(j >= 0, j < ncols))
+            key, bad = force(lambda: cols.keys_seq.at(j), "column_key_is_computed_without_error")
+            if not bad:
+                out["keyed_by_the_column_label"] = key is df.columns.at(j)
+                comp, bad = force(lambda: cols.value_for(key), "column_schema_is_built_without_error")
+            if bad:
+                out.update(bad)
+                return out
+            if out["keyed_by_the_column_label"]:
+                out.update(component_ctor_spec(comp, "Column", stats["columns"].value_for(key), False, "column."))
+        else:
+            out["one_column_schema_per_column"] = And(isinstance(cols, dict) and len(cols) == 0, py_eq(ncols, 0))
+        return out
+
+    def apply(self, I, args, kwargs):
+        return SAny(name="dataframe_schema")
+
+
+class InferSeriesSchema(Contract):
+    target = f"{INFER}:infer_series_schema"
+    params = dict(series=None)
+    sym_globals = SCHEMA_GLOBALS
+    use_contracts = ("InferSeriesStatistics", "ParseCheckStatistics")
+
+    def setup(self, I):
+        PI.install(I)
+        # remember the statistics record the applied contract hands out
+        reg = {c.__name__: c for c in CONTRACTS}
+        orig = reg["InferSeriesStatistics"].apply
+
+        def apply(self_, I_, args, kwargs):
+            r = orig(self_, I_, args, kwargs)
+            cur().ghost["series_stats"] = r
+            return r
+
+        I.contracts[id(resolve_target(InferSeriesStatistics.target))] = type("InferSeriesStatisticsRec", (InferSeriesStatistics,), {"apply": apply, "name": lambda s: "InferSeriesStatistics"})()
+
+    def make_args(self):
+        return {"series": fresh_array("series", REPRESENTATIVES[:1])}
+
+    def ensures(self, result, old, series):
+        call = ctor_call(result)
+        out = {"returns_the_one_series_schema_it_builds": call is not None and call[0] == "SeriesSchema" and len(cur().ghost["ctors"]["SeriesSchema"].calls) == 1}
+        if not out["returns_the_one_series_schema_it_builds"]:
+            return out
+        rec = cur().ghost["series_stats"]
+        out.update(component_ctor_spec(result, "SeriesSchema", rec, True, "series."))
+        out["coerce_is_on"] = call[2].get("coerce") is True
+        return out
+
+    def apply(self, I, args, kwargs):
+        return SAny(name="series_schema")
+
+
+class InferSchema(Contract):
+    """DataFrame -> infer_dataframe_schema(obj), Series -> infer_series_schema(obj), anything else -> TypeError"""
+
+    target = f"{INFER}:infer_schema"
+    params = dict(pandas_obj=None)
+    raises = (TypeError,)
+    use_contracts = ("InferDataFrameSchema", "InferSeriesSchema")
+
+    def setup(self, I):
+        PI.install(I)
+        for cname in ("InferDataFrameSchema", "InferSeriesSchema"):
+            cls = {c.__name__: c for c in CONTRACTS}[cname]
+
+            def apply(self_, I_, args, kwargs, cname=cname):
+                r = SAny(name=cname)
+                cur().ghost.setdefault("dispatched", []).append((cname, args[0], r))
+                return r
+
+            I.contracts[id(resolve_target(cls.target))] = type(cname + "Rec", (cls,), {"apply": apply, "name": lambda s, cname=cname: cname})()
+
+    def make_args(self):
+        k = cur().choose([(n, None) for n in ("DataFrame", "Series", "Index", "other")], "type(pandas_obj)")
+        core.register_model_var("type(pandas_obj)", lambda m, k=k: ("DataFrame", "Series", "Index", "other")[k])
+        cur().ghost["objkind"] = k
+        if k == 0:
+            return {"pandas_obj": fresh_frame(universe=REPRESENTATIVES[:1])}
+        if k in (1, 2):
+            return {"pandas_obj": fresh_array("obj", REPRESENTATIVES[:1], is_index=(k == 2))}
+        return {"pandas_obj": T.Ref(object).fresh("obj")}
+
+    def ensures(self, result, old, pandas_obj):
+        k = cur().ghost["objkind"]
+        d = cur().ghost.get("dispatched", [])
+        want = {0: "InferDataFrameSchema", 1: "InferSeriesSchema"}.get(k)
+        return {"dispatches_on_the_object_kind": want is not None and len(d) == 1 and d[0][0] == want and d[0][1] is pandas_obj and result is d[0][2]}
+
+    def on_raise(self, exc, old, pandas_obj):
+        return {"type_error_only_for_other_objects": exc.cls is TypeError and cur().ghost["objkind"] in (2, 3) and not cur().ghost.get("dispatched")}
+
+
+CONTRACTS = [GetArrayType, GetArrayCheckStatistics, InferSeriesStatistics, InferIndexStatistics, InferDataFrameStatistics,
+             ParseCheckStatistics, CreateIndex, InferDataFrameSchema, InferSeriesSchema, InferSchema]
+
